@@ -432,7 +432,39 @@ async def run_restore(run: dict) -> list[dict]:
     return out
 
 
-RUNNERS = {"proto_port": run_proto_port, "proto_read": run_proto_read, "proto_late": run_proto_late,
+async def run_app(run: dict) -> list[dict]:
+    """The application (or a payload that names a device) asks the gateway for a device by id: Gateway.get_device()
+    -> check_filter_lists.  One row per role that is an id; only `newdevs`/`devroles` are meaningful."""
+    cfg, ids, out = run["cfg"], run["ids"], []
+    for role in ("Listed", "Unlisted", "Blocked", "ListedAndBlocked", "Gwy", "Foreign18", "Placeholder"):
+        if role == "Gwy" and cfg["gwb"]:
+            # the gateway's own id in the block list is a configuration the library rejects (error log "MUST NOT be
+            # in the block_list"), and get_device() exempts the gateway's own id from both lists on purpose ("have to
+            # allow for GWY not being in known_list"): asking for that device by name is not a packet giving rise to
+            # a device - not judged here (the packet levels do judge a block-listed gateway) (J28)
+            continue
+        for again in (False, True):     # asked once / asked again after having been refused or created once
+            row = {"src": role, "dst": "Null", "shape": "__a2", "dir": "rx"}
+            o = _blank(row)
+            o["cansend"] = False
+            gwy, _t, _got = await _make_gateway(cfg, ids, False)
+            before = set(gwy.device_by_id)
+            for _ in range(2 if again else 1):
+                try:
+                    gwy.get_device(ids[role])
+                except LookupError:
+                    o["refused"] = True
+                except Exception as err:  # noqa: BLE001
+                    o["exc"] = type(err).__name__
+            await _drain(4)
+            o["newdevs"] = len(set(gwy.device_by_id) - before)
+            o["devroles"] = _roles(set(gwy.device_by_id) - before, ids)
+            await gwy.stop()
+            out.append(o)
+    return out
+
+
+RUNNERS = {"app": run_app, "proto_port": run_proto_port, "proto_read": run_proto_read, "proto_late": run_proto_late,
            "gateway": run_gateway, "send": run_send,
            "file": run_file, "restore": run_restore}
 
@@ -450,7 +482,8 @@ def execute_runs(runs: list[dict]) -> tuple[list[dict], int]:
             LOOP_EXC.append(f"{lvl}: {ctx.get('message')} {ctx.get('exception')!r}"[:300])
         want = sum(1 for r in run["rows"] if lvl in ("proto_port", "proto_read", "proto_late") or
                    r["dir"] == ("tx" if lvl == "send" else "rx"))
-        skipped += want - len(rows)
+        if lvl != "app":    # (its rows are its own: one per id role)
+            skipped += want - len(rows)
         for r in rows:
             r.pop("exc", None)
         name = lvl + ("+eav" if opts.get("eavesdrop") else "") + ("+fresh" if opts.get("fresh") else "")
